@@ -515,6 +515,14 @@ func (it *interp) parse(op []string) func() string {
 			_ = vxfw.VerifMouseExit(s.vs, clear == 1)
 			return s.snapshot()
 		}
+	case "tfin":
+		sc := s.parseScript(c)
+		c.end()
+		return func() string {
+			begin(sc)
+			_ = vxfw.VerifTerminalFocusIn(s.vs)
+			return s.snapshot()
+		}
 	case "cmd":
 		c.lit("C")
 		cmd := s.parseCmd(c, 0)
@@ -879,14 +887,18 @@ func genCase(r *hx.Run, rng *gen.Rng, emit func(op string)) {
 			countTree(t)
 			emit(fmt.Sprintf("mupd T %s %s", t, script()))
 			r.Count("op-mupd")
-		case p < 81:
+		case p < 80:
 			cl := 1
 			if rng.Chance(1, 3) {
 				cl = 0
 			}
 			emit(fmt.Sprintf("mexit %d %s", cl, script()))
 			r.Count("op-mexit")
-		case p < 90:
+		case p < 83:
+			// terminal FocusIn arm of Run: mouseHandler.mouseEnter(root)
+			emit("tfin " + script())
+			r.Count("op-tfin")
+		case p < 91:
 			g.hasFocus = false
 			var cmd string
 			if rng.Chance(1, 2) {
